@@ -86,49 +86,72 @@ fn wrap(id: &str, r: Check) -> Result<(), (String, Violation)> {
     r.map_err(|v| (id.to_string(), v))
 }
 
-/// Evaluate one fuzz input; Err carries (property id, violation)
+/// Evaluate one fuzz input; Err carries (property id, violation). When the environment names the property the campaign
+/// serves (PV_FUZZ_SERVE=Cxx, set by ./check), only the sub-checks of THAT property are evaluated.
 pub fn fuzz_one(target: &str, data: &[u8], run: &Run) -> Result<(), (String, Violation)> {
+    static SERVE: std::sync::OnceLock<Option<String>> = std::sync::OnceLock::new();
+    let serve = SERVE.get_or_init(|| std::env::var("PV_FUZZ_SERVE").ok());
+    // a campaign that serves one property evaluates only that property's sub-checks: a violation of another property
+    // would otherwise end every job before the served one is reached (the other property's own campaign reports it)
+    if let (Some(id), "pipelines" | "spaces") = (serve.as_deref(), target) {
+        return fuzz_one_inner(target, data, run, Some(id));
+    }
+    fuzz_one_inner(target, data, run, None)
+}
+
+/// `only`: evaluate only the sub-checks of that property
+fn fuzz_one_inner(target: &str, data: &[u8], run: &Run, only: Option<&str>) -> Result<(), (String, Violation)> {
     let mut l = Local::default();
+    let want = |id: &str| only.map_or(true, |o| o == id);
     match target {
         "ops" => {
             let v = decode_strings(data);
             let s = &v[0];
             let t = v.get(1).cloned().unwrap_or_else(|| s.chars().rev().collect());
-            wrap("C01", props::c01::check_string(s, &t, &mut l))?;
+            if want("C01") { wrap("C01", props::c01::check_string(s, &t, &mut l))?; }
             if data.len() >= 12 {
                 let cp = u32::from_le_bytes([data[0], data[1], data[2], data[3]]);
                 let off = usize::from_le_bytes([data[4], data[5], data[6], data[7], data[8], data[9], data[10], data[11]]);
-                wrap("C01", props::c01::check_numbers(cp, off, &mut l))?;
+                if want("C01") { wrap("C01", props::c01::check_numbers(cp, off, &mut l))?; }
             }
             Ok(())
         }
         "spaces" => {
             for s in decode_strings(data) {
-                wrap("C12", props::c12::check(Prof::Nick, &s, &mut l))?;
-                wrap("C12", props::c12::check(Prof::Opaque, &s, &mut l))?;
-                wrap("C06", props::c06::check(run, &s, &mut l))?;
+                if want("C12") { wrap("C12", props::c12::check(Prof::Nick, &s, &mut l))?; }
+                if want("C12") { wrap("C12", props::c12::check(Prof::Opaque, &s, &mut l))?; }
+                if want("C06") { wrap("C06", props::c06::check(run, &s, &mut l))?; }
             }
             Ok(())
         }
         "pipelines" => {
             let v = decode_strings(data);
             for s in &v {
-                wrap("C04", props::c04::check(run, Prof::UserMapped, s, &mut l))?;
-                wrap("C04", props::c04::check(run, Prof::UserPreserved, s, &mut l))?;
-                wrap("C05", props::c05::check(run, s, &mut l))?;
-                wrap("C10", props::c10::check(Prof::UserMapped, s, &mut l))?;
-                wrap("C11", props::c11::check(Prof::UserPreserved, s, &mut l))?;
+                if want("C04") { wrap("C04", props::c04::check(run, Prof::UserMapped, s, &mut l))?; }
+                if want("C04") { wrap("C04", props::c04::check(run, Prof::UserPreserved, s, &mut l))?; }
+                if want("C05") { wrap("C05", props::c05::check(run, s, &mut l))?; }
+                if want("C10") { wrap("C10", props::c10::check(Prof::UserMapped, s, &mut l))?; }
+                if want("C11") { wrap("C11", props::c11::check(Prof::UserPreserved, s, &mut l))?; }
                 for p in PROFS {
-                    wrap("C08", props::c08::check(run, p, s, &mut l))?;
+                    if want("C08") { wrap("C08", props::c08::check(run, p, s, &mut l))?; }
                 }
             }
             if v.len() >= 2 {
+                // the second string also read as a list of rewrite operations applied to the first (partner that differs by
+                // case / width / spacing / respelling only)
+                let ops: Vec<(u8, u32)> = v[1].as_bytes().chunks(2).take(4).map(|c| (c[0], (*c.get(1).unwrap_or(&0) as u32).wrapping_mul(0x0101_0101))).collect();
+                let partner = props::c07::variant(&v[0], &ops);
+                if want("C07") {
+                    for p in PROFS {
+                        wrap("C07", props::c07::check_pair(run, p, &v[0], &partner, &mut l))?;
+                    }
+                }
                 for p in PROFS {
-                    wrap("C07", props::c07::check_pair(run, p, &v[0], &v[1], &mut l))?;
+                    if want("C07") { wrap("C07", props::c07::check_pair(run, p, &v[0], &v[1], &mut l))?; }
                 }
                 if v.len() >= 3 {
                     for p in PROFS {
-                        wrap("C07", props::c07::check_laws(run, p, &v[0], &v[1], &v[2], &mut l))?;
+                        if want("C07") { wrap("C07", props::c07::check_laws(run, p, &v[0], &v[1], &v[2], &mut l))?; }
                     }
                 }
             }
@@ -136,13 +159,16 @@ pub fn fuzz_one(target: &str, data: &[u8], run: &Run) -> Result<(), (String, Vio
         }
         "bidi" => {
             let s = decode_bidi(data);
-            wrap("C09", props::c09::check(run, Prof::UserMapped, &s, &mut l))?;
-            wrap("C09", props::c09::check(run, Prof::UserPreserved, &s, &mut l))
+            if want("C09") { wrap("C09", props::c09::check(run, Prof::UserMapped, &s, &mut l))?; }
+            if want("C09") {
+                wrap("C09", props::c09::check(run, Prof::UserPreserved, &s, &mut l))?;
+            }
+            Ok(())
         }
         "csv" => {
             let text = String::from_utf8_lossy(data);
             for line in text.split('\n') {
-                wrap("C17", props::c17::check_line_text(line, &mut l))?;
+                if want("C17") { wrap("C17", props::c17::check_line_text(line, &mut l))?; }
             }
             Ok(())
         }
